@@ -771,9 +771,15 @@ func (sp *StreamParser) ExecCmd(cb RdbObjExecutor) {
 		// * (deleted flag in the entry flags set). So the total number of items
 		// * actually inside the listpack (both deleted and not) is count+deleted.
 
-		count := lp.NextInteger()              // items count
-		deleted := lp.NextInteger()            // deleted count
-		numFields := lp.NextInteger()          // num fields
+		count := lp.NextInteger()     // items count
+		deleted := lp.NextInteger()   // deleted count
+		numFields := lp.NextInteger() // num fields
+		// every field is an element of this listpack : a count that the listpack
+		// cannot hold (damaged snapshot) must not size an allocation, an absurd
+		// capacity is a fatal out-of-memory, not an error
+		if numFields < 0 || numFields > int64(len(val)) {
+			panicIfErr(fmt.Errorf("stream master entry, invalid num-fields : %d, listpack bytes : %d", numFields, len(val)))
+		}
 		fields := make([][]byte, 0, numFields) // fields
 		for j := int64(0); j < numFields; j++ {
 			fields = append(fields, lp.Next())
